@@ -590,8 +590,10 @@ func (f *Func) callDirect(log hclog.Logger, argMap map[interface{}]reflect.Value
 	// the result we have cached. We hold the lock until we return so that
 	// concurrent first calls can't both execute the function.
 	if f.once {
+		verifHook("once.enter", f)
 		f.onceMu.Lock()
 		defer f.onceMu.Unlock()
+		verifHook("once.check", f)
 
 		if f.onceResult != nil {
 			log.Trace("returning cached result, FuncOnce enabled")
@@ -629,11 +631,13 @@ func (f *Func) callDirect(log hclog.Logger, argMap map[interface{}]reflect.Value
 		log.Trace("argument", "idx", i, "value", arg.Interface())
 	}
 
+	verifHook("once.exec", f)
 	out := f.fn.Call(in)
 	result := Result{out: out}
 
 	// If we have FuncOnce enabled, cache the result.
 	if f.once {
+		verifHook("once.store", f)
 		f.onceResult = &result
 	}
 
